@@ -593,6 +593,10 @@ def manifestsEnum (rels : List Bytes) : List (Name × Bytes) :=
     | some p => some (n, p)
     | none => none
 
+/-- the guard of `server.CopyModel(src, dst)`: both names must be fully qualified before any path is derived
+    (`false` = `model.Unqualified`, nothing is touched) -/
+def copyAccepted (src dst : Name) : Bool := isFQM dst && isFQM src
+
 /-! ### `string([]rune(s))`: Go's UTF-8 decoding, every invalid byte becoming U+FFFD -/
 
 def isCont (c : UInt8) : Bool := 0x80 ≤ c && c ≤ 0xBF
